@@ -109,7 +109,7 @@ class Fn:
             if fn == 'secp256k1_u128_to_u64': return '(u64 %s)' % s.var(s.addr(args[0]))
             if fn == 'secp256k1_u128_hi_u64': return '(%s / 2^64)' % s.var(s.addr(args[0]))
             if fn in s.callees:      # call to another translated function that returns a value: f args
-                return '(%s %s)' % (fn.replace('secp256k1_', ''), ' '.join(s.call_args(fn, args)))
+                return '(%s %s)' % (getattr(s, 'callee_names', {}).get(fn, fn.replace('secp256k1_', '')), ' '.join(s.call_args(fn, args)))
             if fn in s.inlines:
                 r = s.inline_call(fn, args)
                 if r is None: raise Unsupported('value of a call that returns nothing: ' + fn)
@@ -337,12 +337,12 @@ def ast_of(repo, fn, defines=()):
     finally:
         os.unlink(tu.name)
 
-def translate(repo, fn, defines=(), callees=None, requires=(), inlines=(), style='let', short=None):
+def translate(repo, fn, defines=(), callees=None, requires=(), inlines=(), style='let', short=None, callee_names=None):
     """callees: {callee C name: parameter spec list} for value-returning functions already translated;
     inlines: names of functions (same subset) whose calls are translated in place"""
     d = ast_of(repo, fn, defines)
     short = short or fn.replace('secp256k1_', '')
-    f = Fn(d, short, callees, {g: ast_of(repo, g, defines) for g in inlines}, style)
+    f = Fn(d, short, callees, {g: ast_of(repo, g, defines) for g in inlines}, style); f.callee_names = callee_names or {}
     text, ins, outs = f.run()
     if requires:
         text = text.replace('Require Import Kernel.CSem', 'Require Import %s Kernel.CSem' % ' '.join('Gen.' + r for r in requires), 1)
